@@ -340,9 +340,18 @@ func (w *verifLbcWorld) apply(m string) string {
 	case 't':
 		deliver(nsi.transportServerLister, createTransportServerHandlers(w.lbc), "d/"+id, verifLbcTS(id, f[1], ver(f[2])))
 	case 's':
-		deliver(nsi.svcLister, createServiceHandlers(w.lbc), "d/"+id, verifLbcService(id, ver(f[1])))
+		svc := verifLbcService(id, ver(f[1]))
+		if tp, err := strconv.Atoi(opts["tp"]); err == nil { // the Service's targetPort edited in place
+			svc.Spec.Ports[0].TargetPort = intstr.FromInt(tp)
+		}
+		deliver(nsi.svcLister, createServiceHandlers(w.lbc), "d/"+id, svc)
 	case 'e': // e<svc-number>.<slice index>/<svc>/<addrs>
-		deliver(nsi.endpointSliceLister.Store, createEndpointSliceHandlers(w.lbc), "d/"+id, verifLbcSlice(id, f[1], f[2]))
+		sl := verifLbcSlice(id, f[1], f[2])
+		if pn, err := strconv.Atoi(opts["port"]); err == nil { // the slice's port rewritten, endpoints untouched
+			p32 := int32(pn)
+			sl.Ports[0].Port = &p32
+		}
+		deliver(nsi.endpointSliceLister.Store, createEndpointSliceHandlers(w.lbc), "d/"+id, sl)
 	case 'k':
 		deliver(nsi.secretLister, createSecretHandlers(w.lbc), "d/"+id, verifLbcSecret(id, f[1], ver(f[2])))
 	case 'p':
